@@ -39,7 +39,7 @@ const (
 	collName  = "c18col"
 	tableName = "c18t"
 
-	sessTimeout = 1200 * time.Millisecond
+	sessTimeout = 5 * time.Second
 	guardTick   = 100 * time.Millisecond
 )
 
@@ -199,79 +199,115 @@ func (e *env) must(what string, err error) error {
 	return nil
 }
 
+// withSys runs one set-up call as sysadmin in a session of its own on db; a slow machine can let the
+// session guard expire the session before the call starts, so "session not found" is retried.
+func (e *env) withSys(db string, f func(ctx context.Context) error) error {
+	var err error
+	for try := 0; try < 4; try++ {
+		var md metadata.MD
+		md, err = e.openSession(sysUser, sysPass, db)
+		if err != nil {
+			return err
+		}
+		ctx, cancel := ctxWith(md)
+		err = f(ctx)
+		cancel()
+		e.closeSession(md)
+		if err == nil || !strings.Contains(err.Error(), "session not found") {
+			return err
+		}
+	}
+	return err
+}
+
 // populate creates (cfgAuth server on a fresh directory) the databases, users, a table, a
 // collection and a few keys the matrix refers to.
 func (e *env) populate() error {
-	md, err := e.openSession(sysUser, sysPass, dbDefault)
-	if err != nil {
-		return e.must("sysadmin session", err)
-	}
 	for _, db := range []string{dbOwn, dbOther} {
-		ctx, cancel := ctxWith(md)
-		_, err := e.immu.CreateDatabaseV2(ctx, &schema.CreateDatabaseRequest{Name: db})
-		cancel()
-		if err != nil {
+		db := db
+		if err := e.withSys(dbDefault, func(ctx context.Context) error {
+			_, err := e.immu.CreateDatabaseV2(ctx, &schema.CreateDatabaseRequest{Name: db})
+			return err
+		}); err != nil {
 			return e.must("create database "+db, err)
 		}
 	}
-	mk := func(md metadata.MD, user string, perm uint32) error {
-		ctx, cancel := ctxWith(md)
-		defer cancel()
+	mk := func(ctx context.Context, user string, perm uint32) error {
 		_, err := e.immu.CreateUser(ctx, &schema.CreateUserRequest{User: []byte(user), Password: []byte(userPass), Permission: perm, Database: dbOwn})
 		return err
 	}
-	for u, p := range map[string]uint32{"c18admin": auth.PermissionAdmin, "c18rw": auth.PermissionRW, "c18r": auth.PermissionR,
-		"c18none": auth.PermissionR, "c18victims": auth.PermissionR} {
-		if err := mk(md, u, p); err != nil {
-			return e.must("create user "+u, err)
+	users := []struct {
+		u string
+		p uint32
+	}{{"c18admin", auth.PermissionAdmin}, {"c18rw", auth.PermissionRW}, {"c18r", auth.PermissionR}, {"c18none", auth.PermissionR}, {"c18victims", auth.PermissionR}}
+	for _, x := range users {
+		x := x
+		if err := e.withSys(dbDefault, func(ctx context.Context) error { return mk(ctx, x.u, x.p) }); err != nil {
+			return e.must("create user "+x.u, err)
 		}
 	}
-	{ // the user without any permission: created with R on the own database, then revoked
-		ctx, cancel := ctxWith(md)
+	// the user without any permission: created with R on the own database, then revoked
+	if err := e.withSys(dbDefault, func(ctx context.Context) error {
 		_, err := e.immu.ChangePermission(ctx, &schema.ChangePermissionRequest{Action: schema.PermissionAction_REVOKE, Username: "c18none", Database: dbOwn, Permission: auth.PermissionR})
-		cancel()
-		if err != nil {
-			return e.must("revoke c18none", err)
-		}
+		return err
+	}); err != nil {
+		return e.must("revoke c18none", err)
 	}
-	amd, err := e.openSession("c18admin", userPass, dbOwn)
-	if err != nil {
-		return e.must("admin session", err)
+	// the user that user-administration requests act upon holds read permission on both user databases
+	if err := e.withSys(dbDefault, func(ctx context.Context) error {
+		_, err := e.immu.ChangePermission(ctx, &schema.ChangePermissionRequest{Action: schema.PermissionAction_GRANT, Username: "c18victims", Database: dbOther, Permission: auth.PermissionR})
+		return err
+	}); err != nil {
+		return e.must("grant c18victims on "+dbOther, err)
 	}
-	if err := mk(amd, "c18victima", auth.PermissionR); err != nil {
-		return e.must("create user c18victima (by the database admin)", err)
-	}
-	e.closeSession(amd)
-	e.closeSession(md)
 	// data in every user database
 	for _, db := range []string{dbDefault, dbOwn, dbOther} {
-		smd, err := e.openSession(sysUser, sysPass, db)
-		if err != nil {
-			return e.must("sysadmin session on "+db, err)
+		steps := []func(ctx context.Context) error{
+			func(ctx context.Context) error {
+				_, err := e.immu.Set(ctx, &schema.SetRequest{KVs: []*schema.KeyValue{{Key: []byte("k"), Value: []byte("v")}, {Key: []byte("k2"), Value: []byte("v2")}}})
+				return err
+			},
+			func(ctx context.Context) error {
+				_, err := e.immu.SQLExec(ctx, &schema.SQLExecRequest{Sql: "CREATE TABLE IF NOT EXISTS " + tableName + "(id INTEGER AUTO_INCREMENT, v INTEGER, PRIMARY KEY id); INSERT INTO " + tableName + "(v) VALUES (1);"})
+				return err
+			},
+			func(ctx context.Context) error {
+				_, err := e.doc.CreateCollection(ctx, &protomodel.CreateCollectionRequest{Name: collName,
+					Fields: []*protomodel.Field{{Name: "n", Type: protomodel.FieldType_INTEGER}}})
+				return err
+			},
+			func(ctx context.Context) error {
+				d, _ := structpb.NewStruct(map[string]interface{}{"n": 1})
+				r, err := e.doc.InsertDocuments(ctx, &protomodel.InsertDocumentsRequest{CollectionName: collName, Documents: []*structpb.Struct{d}})
+				if err == nil && len(r.DocumentIds) > 0 {
+					e.docID = r.DocumentIds[0]
+				}
+				return err
+			},
 		}
-		ctx, cancel := ctxWith(smd)
-		_, err = e.immu.Set(ctx, &schema.SetRequest{KVs: []*schema.KeyValue{{Key: []byte("k"), Value: []byte("v")}, {Key: []byte("k2"), Value: []byte("v2")}}})
-		if err == nil {
-			_, err = e.immu.SQLExec(ctx, &schema.SQLExecRequest{Sql: "CREATE TABLE IF NOT EXISTS " + tableName + "(id INTEGER AUTO_INCREMENT, v INTEGER, PRIMARY KEY id); INSERT INTO " + tableName + "(v) VALUES (1);"})
-		}
-		if err == nil {
-			_, err = e.doc.CreateCollection(ctx, &protomodel.CreateCollectionRequest{Name: collName,
-				Fields: []*protomodel.Field{{Name: "n", Type: protomodel.FieldType_INTEGER}}})
-		}
-		if err == nil {
-			d, _ := structpb.NewStruct(map[string]interface{}{"n": 1})
-			var r *protomodel.InsertDocumentsResponse
-			r, err = e.doc.InsertDocuments(ctx, &protomodel.InsertDocumentsRequest{CollectionName: collName, Documents: []*structpb.Struct{d}})
-			if err == nil && len(r.DocumentIds) > 0 {
-				e.docID = r.DocumentIds[0]
+		for i, st := range steps {
+			if err := e.withSys(db, st); err != nil {
+				return e.must(fmt.Sprintf("populate %s (step %d)", db, i), err)
 			}
 		}
-		cancel()
-		e.closeSession(smd)
-		if err != nil {
-			return e.must("populate "+db, err)
-		}
 	}
+	// a collection and a table of the same names in systemdb, if the server lets a sysadmin create
+	// them there (that it does is one of the findings; when it does not, the RPCs simply find none)
+	e.withSys(dbSystem, func(ctx context.Context) error {
+		e.doc.CreateCollection(ctx, &protomodel.CreateCollectionRequest{Name: collName,
+			Fields: []*protomodel.Field{{Name: "n", Type: protomodel.FieldType_INTEGER}}})
+		return nil
+	})
+	e.withSys(dbSystem, func(ctx context.Context) error {
+		ntx, err := e.immu.NewTx(ctx, &schema.NewTxRequest{Mode: schema.TxMode_ReadWrite})
+		if err != nil {
+			return nil
+		}
+		tctx := metadata.AppendToOutgoingContext(ctx, "transactionid", ntx.TransactionID)
+		e.immu.TxSQLExec(tctx, &schema.SQLExecRequest{Sql: "CREATE TABLE IF NOT EXISTS " + tableName + "(id INTEGER AUTO_INCREMENT, v INTEGER, PRIMARY KEY id)"})
+		e.immu.Commit(tctx, &emptypb.Empty{})
+		return nil
+	})
 	return nil
 }
 
